@@ -151,6 +151,12 @@ def show(n, depth=0):
     s = lambda x: show(x, depth + 1)
     if k in TRANSPARENT and len(n.get("c", [])) == 1:
         if k == "ParenExpr":
+            if ("param" in n or "named" in n):
+                # parentheses put in by the canonicaliser around a substituted expression: only shown where they matter
+                inner = strip(n["c"][0])
+                if inner.get("k") in ("DeclRefExpr", "IntegerLiteral", "FloatingLiteral", "MemberExpr", "CallExpr", "CXXMemberCallExpr", "CXXBoolLiteralExpr",
+                                      "CXXThisExpr", "ArraySubscriptExpr", "StringLiteral") or inner.get("k") in EXPLICIT_CASTS:
+                    return s(n["c"][0])
             return "(" + s(n["c"][0]) + ")"
         return s(n["c"][0])
     if k in EXPLICIT_CASTS:
